@@ -93,6 +93,12 @@ func (sp *c14Spec) rows() [][]c14Row {
 			r := c14Row{ID: id*7 + int64(sp.Salt), Name: c14Names[(int(id)+sp.Salt)%len(c14Names)]}
 			switch id % 4 {
 			case 0:
+				// every other one: a trailer with the magic of an encrypted footer
+				// (footer length 24 + "PARE"); the others stay null
+				if id%8 == 4 {
+					s := "x\x18\x00\x00\x00PARE"
+					r.Tag = &s
+				}
 			case 1:
 				s := fmt.Sprintf("tag-%d", id)
 				r.Tag = &s
@@ -154,8 +160,10 @@ type c14Env struct {
 	timeout time.Duration
 	layouts int
 	// file options added to those of the file by readAll (the open variant
-	// under which the prefix sweep runs)
+	// under which the prefix sweep runs); noKeys: the keys of an encrypted file
+	// are withheld
 	extraOpen []parquet.FileOption
+	noKeys    bool
 	// vm_compute sample of the copy path and of the reader's demand (cases.v)
 	vmCopyDefs  []string
 	vmCopyCases []string
@@ -790,7 +798,7 @@ func runC14(c *core.Ctx) {
 	env.workdir = filepath.Join(c.OutDir, "pools")
 	_ = os.MkdirAll(env.workdir, 0o755)
 	defer os.RemoveAll(env.workdir)
-	c.Res.Rule = "files of 1-3 row groups (int64, dictionary string, optional plain string, repeated int32 columns; v1/v2 pages, snappy/zstd/gzip/none, bloom filters inline and deferred, page index, plaintext-footer and encrypted-footer encryption, MaxRowsPerRowGroup) written through Write batches / Flush / Close against a destination following a fault script: error at byte offset k or one short count with nil error at k; k = every offset (thorough, small files) or first 16, last 64, +-1 around every module boundary of the footer and a random stride (quick; +-2 and denser strides in thorough); x WriteBufferSize {0, 7, 100, default} x page buffers {default, 64-byte chunks, temp files} x bloom filters {inline, deferred in memory, deferred in files}. A case is one (file, configuration, fault); all are non-trivial (the fault lies inside the file). Plus every prefix length of every file through OpenFile + full read under the default file options and under 18 option sets (OptimisticRead x ReadBufferSize 1/7/8/9/64/65536/default, ReadBufferSize 16/64, SkipPageIndex, SkipBloomFilters, PrefetchBloomFilters, async read mode, SkipMagicBytes and combinations; error class of the open compared with the model of the open stages under these options), ReadAt faults at every call index, File.ReadAt against the model, and failing page buffers. Copy path: every unencrypted file is copied with WriteRowGroup (same options, so that every column chunk is streamed from the source) x WriteBufferSize {0, 7, 100, default} x bloom filters {copied inline, deferred in memory, deferred in files}; each copied section (dictionary page, data pages, bloom filter) in turn delivers only {0, 1, n/2, n-1} of its n bytes exactly when it is copied; destination faults at the module boundaries of the copy and a stride. Reader's demand: the (offset, length) of every ReadAt of OpenFile + full read with ReadBufferSize {default, 64, 16} against the model's demand."
+	c.Res.Rule = "files of 1-3 row groups (int64, dictionary string, optional plain string, repeated int32 columns; v1/v2 pages, snappy/zstd/gzip/none, bloom filters inline and deferred, page index, plaintext-footer and encrypted-footer encryption, MaxRowsPerRowGroup) written through Write batches / Flush / Close against a destination following a fault script: error at byte offset k or one short count with nil error at k; k = every offset (thorough, small files) or first 16, last 64, +-1 around every module boundary of the footer and a random stride (quick; +-2 and denser strides in thorough); x WriteBufferSize {0, 7, 100, default} x page buffers {default, 64-byte chunks, temp files} x bloom filters {inline, deferred in memory, deferred in files}. A case is one (file, configuration, fault); all are non-trivial (the fault lies inside the file). Plus every prefix length of every file through OpenFile + full read under the default file options and under 18 option sets (OptimisticRead x ReadBufferSize 1/7/8/9/64/65536/default, ReadBufferSize 16/64, SkipPageIndex, SkipBloomFilters, PrefetchBloomFilters, async read mode, SkipMagicBytes and combinations; encrypted files also under each of these WITHOUT the keys, complete file included: an error, never a panic; the data of every file plants trailers ending in PAR1 and in PARE; error class of the open compared with the model of the open stages under these options), ReadAt faults at every call index, File.ReadAt against the model, and failing page buffers. Copy path: every unencrypted file is copied with WriteRowGroup (same options, so that every column chunk is streamed from the source) x WriteBufferSize {0, 7, 100, default} x bloom filters {copied inline, deferred in memory, deferred in files}; each copied section (dictionary page, data pages, bloom filter) in turn delivers only {0, 1, n/2, n-1} of its n bytes exactly when it is copied; destination faults at the module boundaries of the copy and a stride. Reader's demand: the (offset, length) of every ReadAt of OpenFile + full read with ReadBufferSize {default, 64, 16} against the model's demand."
 
 	if c.HasOracle() {
 		if ans := c.Ask("c14.flags"); !strings.HasSuffix(ans, " 1") || strings.Contains(strings.Split(ans, " ")[0], "0") {
@@ -820,9 +828,13 @@ func runC14(c *core.Ctx) {
 		}
 	}
 
+	tAll := time.Now()
 	for si := range specs {
 		sp := &specs[si]
 		layouts := map[string]*c14Layout{}
+		if os.Getenv("C14_TIMES") != "" {
+			fmt.Fprintf(os.Stderr, "c14: -- %s starts at %v\n", sp.Name, time.Since(tAll))
+		}
 		for _, cfg := range c14Cfgs(sp, c.Quick()) {
 			key := cfg.Pool + "/" + cfg.Deferred
 			lay := layouts[key]
@@ -878,10 +890,18 @@ func runC14(c *core.Ctx) {
 		}
 		// reader side on the reference bytes of the default configuration
 		if lay := layouts["default/"]; lay != nil {
-			env.truncation(sp, lay)
-			env.readAtFaults(sp, lay)
-			env.copyTruncated(sp, lay)
-			env.copySweep(sp, lay.ref)
+			tm := func(what string, f func()) {
+				t0 := time.Now()
+				f()
+				if os.Getenv("C14_TIMES") != "" {
+					fmt.Fprintf(os.Stderr, "c14: %s %s: %v\n", what, sp.Name, time.Since(t0))
+				}
+			}
+			tm("sink sweeps (since start)", func() {})
+			tm("truncation", func() { env.truncation(sp, lay) })
+			tm("readAtFaults", func() { env.readAtFaults(sp, lay) })
+			tm("copyTruncated", func() { env.copyTruncated(sp, lay) })
+			tm("copySweep", func() { env.copySweep(sp, lay.ref) })
 			// the reader's demand against the model: exact with buffers longer than
 			// every field of a page header, inside the declared ranges otherwise
 			if sp.Enc == 0 {
@@ -1014,7 +1034,11 @@ func (env *c14Env) readAll(sp *c14Spec, r io.ReaderAt, size int64, afterOpen ...
 			panicked = fmt.Sprint(x)
 		}
 	}()
-	f, err := parquet.OpenFile(r, size, append(env.openOpts(sp), env.extraOpen...)...)
+	opts := env.openOpts(sp)
+	if env.noKeys {
+		opts = nil
+	}
+	f, err := parquet.OpenFile(r, size, append(opts, env.extraOpen...)...)
 	if err != nil {
 		return nil, "open", err, ""
 	}
@@ -1087,7 +1111,14 @@ type c14OpenVariant struct {
 	SkipBloom  bool
 	Prefetch   bool
 	Async      bool
+	// an encrypted file opened without WithDecryption: every prefix and the
+	// complete file must be answered with an error, never a panic
+	NoKeys bool
 }
+
+// late: the options act after the footer was decoded, the open stages are
+// those of the default configuration
+func (v c14OpenVariant) late() bool { return !v.SkipMagic && !v.Optimistic && !v.NoKeys }
 
 func (v c14OpenVariant) options() []parquet.FileOption {
 	var o []parquet.FileOption
@@ -1207,12 +1238,25 @@ func (env *c14Env) truncation(sp *c14Spec, lay *c14Layout) {
 	}
 	pastMagic, skipped := 0, 0
 	variants := append([]c14OpenVariant{{}}, c14OpenVariants()...)
+	if sp.Enc != 0 {
+		for _, v := range variants[:len(variants):len(variants)] {
+			v.NoKeys = true
+			v.Name = strings.TrimPrefix(v.Name+",no-keys", ",")
+			variants = append(variants, v)
+		}
+	}
+	if os.Getenv("C14_NOVARIANTS") != "" { // debugging aid: the default options only
+		variants = variants[:1]
+	}
 	// The variants run on every swept prefix in the thorough tier; in the quick
 	// tier on the lengths at which their open stages can differ: the first 80
 	// (around the 8 bytes of the trailer and the small read buffers), the last
 	// 300, +-2 around every module boundary and around the read buffer sizes,
-	// every prefix ending in a magic, and a stride.
-	lsVar := map[int]bool{}
+	// every prefix ending in a magic, and a stride.  The option sets that act
+	// after the footer was decoded (late) cannot change the answer to a prefix:
+	// quick runs them on the first 16 and last 64 lengths, the prefixes ending
+	// in a magic and a wider stride.
+	lsVar, lsLate := map[int]bool{}, map[int]bool{}
 	for _, l := range ls {
 		near := l <= 80 || l >= n-300 || (l >= 8 && isMagic(ref[l-4:l])) || !c.Quick()
 		for _, b := range lay.bounds {
@@ -1223,30 +1267,43 @@ func (env *c14Env) truncation(sp *c14Spec, lay *c14Layout) {
 		}
 		near = near || (l >= parquet.DefaultFileConfig().ReadBufferSize-2 && l <= parquet.DefaultFileConfig().ReadBufferSize+10)
 		lsVar[l] = near
+		lsLate[l] = l <= 16 || l >= n-64 || (l >= 8 && isMagic(ref[l-4:l])) || !c.Quick()
 	}
 	for l := c.Rng.Intn(29); l < n; l += 29 {
 		lsVar[l] = true
 	}
-	defer func() { env.extraOpen = nil }()
+	for l := c.Rng.Intn(97); l < n; l += 97 {
+		lsLate[l] = true
+	}
+	defer func() { env.extraOpen, env.noKeys = nil, false }()
 	tVar := time.Now()
 	defer func() {
 		if os.Getenv("C14_TIMES") != "" {
 			fmt.Fprintf(os.Stderr, "c14: truncation %s: %v\n", sp.Name, time.Since(tVar))
 		}
 	}()
+	asked := map[string]string{}
 	for vi, v := range variants {
-		env.extraOpen = v.options()
+		env.extraOpen, env.noKeys = v.options(), v.NoKeys
+		hasKey := sp.Enc != 0 && !v.NoKeys
 		under, tag := "", ""
 		if vi > 0 {
 			under, tag = " opened with "+v.Name, "/"+v.Name
-			// the complete file opens and reads back under these options
-			if rows, _, err, p := env.readAll(sp, bytes.NewReader(ref), int64(n)); err != nil || p != "" || !c14RowsEqual(rows, want) {
+			// the complete file opens and reads back under these options; without
+			// the keys it is answered with an error or read, not with a panic
+			if rows, _, err, p := env.readAll(sp, bytes.NewReader(ref), int64(n)); v.NoKeys {
+				if p != "" {
+					c.Violation("open-panic", fmt.Sprintf("file %s%s: opening the complete file panics: %s", sp.Name, under, core.Trunc(p, 200)), c14Replay{What: "truncate", Spec: *sp, L: n, Open: v.Name})
+					continue
+				}
+				c.Case("truncate-opened-with"+tag, fmt.Sprintf("%s|%d|%s", sp.Name, n, v.Name), true)
+			} else if err != nil || p != "" || !c14RowsEqual(rows, want) {
 				c.Violation("reference-unreadable", fmt.Sprintf("file %s%s: the complete file does not read back: err=%v panic=%q rows=%d/%d", sp.Name, under, err, p, len(rows), len(want)), c14Replay{What: "truncate", Spec: *sp, L: n, Open: v.Name})
 				continue
 			}
 		}
 		for _, l := range ls {
-			if vi > 0 && !lsVar[l] {
+			if vi > 0 && (!lsVar[l] || (v.late() && !lsLate[l])) {
 				continue
 			}
 			if !magicRejects && l >= 8 && !isMagic(ref[l-4:l]) && le32(ref[l-8:l-4]) > 1<<24 {
@@ -1283,13 +1340,21 @@ func (env *c14Env) truncation(sp *c14Spec, lay *c14Layout) {
 				b01 := map[bool]string{true: "1", false: "0"}
 				var m string
 				if vi == 0 {
-					m = c.Ask(fmt.Sprintf("c14.open %s %d %s %s 0", b01[sp.Enc != 0], l, core.Hexs(hdr), core.Hexs(tail)))
+					m = c.Ask(fmt.Sprintf("c14.open %s %d %s %s 0", b01[hasKey], l, core.Hexs(hdr), core.Hexs(tail)))
 				} else {
 					rbs := v.RBS
 					if rbs == 0 {
 						rbs = parquet.DefaultFileConfig().ReadBufferSize
 					}
-					m = c.Ask(fmt.Sprintf("c14.openx %s %s %d %s %d %s %s 0", b01[v.SkipMagic], b01[v.Optimistic], rbs, b01[sp.Enc != 0], l, core.Hexs(hdr), core.Hexs(tail)))
+					if !v.Optimistic {
+						rbs = 0 // the tail read is 8 bytes whatever the buffer size
+					}
+					// option sets with the same model parameters ask the same question
+					req := fmt.Sprintf("c14.openx %s %s %d %s %d %s %s 0", b01[v.SkipMagic], b01[v.Optimistic], rbs, b01[hasKey], l, core.Hexs(hdr), core.Hexs(tail))
+					if m = asked[req]; m == "" {
+						m = c.Ask(req)
+						asked[req] = m
+					}
 				}
 				agree := m == class || (m == "footer-decode" && class == "ok")
 				if !agree {
